@@ -4,6 +4,7 @@ import (
 	"fmt"
 	"math/rand"
 	"reflect"
+	"strings"
 
 	"github.com/rkosegi/yaml-toolkit/diff"
 	"github.com/rkosegi/yaml-toolkit/dom"
@@ -171,7 +172,12 @@ func c08ApplyDiff(l, rr map[string]any) Case {
 	var fail []string
 	var mods []diff.Modification
 	// (the flattened view of R is looked at before the modifications are applied: it is recomputed afterwards)
-	if pn := guard(func() { mods = *diff.Diff(L, R); _ = R.Flatten(); _ = R.Search(dom.SearchEqual(1)); diff.Apply(R, mods) }); pn != "" {
+	if pn := guard(func() {
+		mods = *diff.Diff(L, R)
+		_ = R.Flatten()
+		_ = R.Search(dom.SearchEqual(1))
+		diff.Apply(R, mods)
+	}); pn != "" {
 		return Case{Kind: "applydiff", Desc: map[string]any{"l": l, "r": rr, "panic": pn}, Fail: []string{"panic in Apply(Diff): " + pn}, Nontrivial: true}
 	}
 	fl, _ := flatPlain(L)
@@ -214,6 +220,23 @@ func c08DeleteAbsent(r *rand.Rand, d map[string]any) Case {
 	p := genPathStr(r)
 	for i := 0; i < 20 && D.Lookup(p) != nil; i++ {
 		p = genPathStr(r) + ".zz"
+	}
+	// an absent path that is the spelling of a present one with a stray dot (no member is named by the empty string)
+	if flat := D.Flatten(); len(flat) > 0 && r.Intn(3) == 0 {
+		q := sortedKeys(flat)[r.Intn(len(flat))]
+		switch r.Intn(3) {
+		case 0:
+			q = q + "."
+		case 1:
+			q = "." + q
+		default:
+			if i := strings.Index(q, "."); i >= 0 {
+				q = q[:i] + "." + q[i:]
+			} else {
+				q = q + "."
+			}
+		}
+		p = q
 	}
 	c := c08ApplyMods(d, []diff.Modification{{Type: diff.ModDelete, Path: p}}, "delete-absent")
 	if len(c.Fail) == 0 {
